@@ -51,6 +51,7 @@ fn main() {
         "server" => streams::server::run_serve(&mut r, n, &mut out),
         "reload" => streams::server::run_reload(&mut r, n, &mut out),
         "wire-deep" => streams::wire::run_deep(n, &mut out),
+        "tables" => streams::name::run_tables(&mut out),
         other => {
             eprintln!("unknown stream {other}");
             std::process::exit(2);
